@@ -1204,6 +1204,9 @@ func stringScannerRuleSSA(r *Run, rule string) {
 			if p.end == "return" && len(p.results) == 1 {
 				nRet++
 				res := p.resolve(p.results[0])
+				if emptyWhenBoundsCross(p, scan, res) {
+					continue // `if end < start { return "" }` in front of input[start:end]: no text between crossed bounds
+				}
 				isInputSlice := func(v ssa.Value) bool {
 					sl, ok := p.resolve(v).(*ssa.Slice)
 					return ok && lm.isFieldLoad(p, p.resolve(sl.X), lm.inputIdx)
@@ -1261,4 +1264,42 @@ func stringScannerRuleSSA(r *Run, rule string) {
 			r.Ok(rule, name, con, w.Pos(scan.Pos()), fmt.Sprintf("%d path(s): no closing quote is stepped over unexamined; result is the input between the quotes", len(pw.paths)))
 		}
 	}
+}
+
+// emptyWhenBoundsCross: the path returns "" after finding hi < lo, where the scanner elsewhere returns x[lo:hi]
+// (the guard in front of a slice expression that would otherwise panic: between crossed bounds there is no text).
+func emptyWhenBoundsCross(p *pwPath, scan *ssa.Function, res ssa.Value) bool {
+	c, ok := res.(*ssa.Const)
+	if !ok || c.Value == nil || c.Value.Kind() != constant.String || constant.StringVal(c.Value) != "" {
+		return false
+	}
+	type pair struct{ lo, hi ssa.Value }
+	var pairs []pair
+	for _, b := range scan.Blocks {
+		for _, ins := range b.Instrs {
+			if sl, isSlice := ins.(*ssa.Slice); isSlice && sl.Low != nil && sl.High != nil {
+				pairs = append(pairs, pair{sl.Low, sl.High})
+			}
+		}
+	}
+	for _, d := range p.decisions {
+		bo, isBin := d.cond.(*ssa.BinOp)
+		if !isBin {
+			continue
+		}
+		small, big := bo.X, bo.Y // small < big holds on this path
+		switch {
+		case bo.Op == token.LSS && d.truth, bo.Op == token.GEQ && !d.truth:
+		case bo.Op == token.GTR && d.truth, bo.Op == token.LEQ && !d.truth:
+			small, big = big, small
+		default:
+			continue
+		}
+		for _, pr := range pairs {
+			if pr.hi == small && pr.lo == big {
+				return true
+			}
+		}
+	}
+	return false
 }
